@@ -96,6 +96,7 @@ GENERATORS = [
     ('Gen_Const.v', 'gen_const.py', ['src/lib/pkcs11/pkcs11.h', 'src/lib/P11Attributes.h', 'src/lib/session_mgr/Session.h',
                                      'src/lib/data_mgr/SecureDataManager.h', 'src/lib/data_mgr/RFC4880.h', 'src/lib/handle_mgr/Handle.h',
                                      'src/lib/object_store/OSAttributes.h', 'src/lib/pkcs11/cryptoki.h']),
+    ('Gen_Parity.v', 'gen_parity.py', ['src/lib/crypto/odd.h']),
     ('Gen_Pure.v', 'gen_pure.py', ['src/lib/access.cpp', 'src/lib/session_mgr/Session.cpp', 'src/lib/P11Attributes.cpp', 'src/lib/P11Attributes.h',
                                    'src/lib/session_mgr/Session.h', 'src/lib/access.h']),
 ]
@@ -112,7 +113,7 @@ def translate(build, only=None):
             outp = os.path.join(GEN, outn)
             deps = [os.path.join(REPO, s) for s in srcs] + [os.path.join(ROOT, 'translator', script), os.path.join(ROOT, 'translator', 'cxxir.py'),
                                                              os.path.join(ROOT, 'translator', 'shallow.py'), os.path.join(build, 'config.h')]
-            if outn != 'Gen_Const.v':
+            if outn not in ('Gen_Const.v', 'Gen_Parity.v'):
                 deps.append(os.path.join(GEN, 'Gen_Const.v'))
             key = file_hash(deps)
             keyf = os.path.join(CACHE, 'gen-' + outn + '.key')
